@@ -122,7 +122,9 @@ class LinearAlgebraMethods(object):
         # (only if it was computed at the current working precision)
         if use_cache and isinstance(A, ctx.matrix) and A._LU and \
             getattr(A, '_LU_prec', None) == ctx.prec:
-            return A._LU
+            # hand out copies: the caller owns what it gets
+            LU, p = A._LU
+            return LU.copy(), list(p)
         if not overwrite:
             orig = A
             A = A.copy()
@@ -153,7 +155,7 @@ class LinearAlgebraMethods(object):
             raise ZeroDivisionError('matrix is numerically singular')
         # cache decomposition
         if not overwrite and isinstance(orig, ctx.matrix):
-            orig._LU = (A, p)
+            orig._LU = (A.copy(), list(p))
             orig._LU_prec = ctx.prec
         return A, p
 
